@@ -949,6 +949,7 @@ package connect
 //@   ensures callres("context.Context.Err", 1) == context.Canceled ==> n == 0 && err != nil && coded(err) && codeOf(err) == 1 && d.err != nil   // label: canceled-before-write
 //@   ensures callres("context.Context.Err", 1) == context.DeadlineExceeded ==> n == 0 && err != nil && coded(err) && codeOf(err) == 4 && d.err != nil   // label: expired-before-write
 //@   ensures callres("context.Context.Err", 1) == nil && old(pclosed(d.requestBodyReader)) ==> err == io.EOF   // label: write-after-the-call-failed-reports-eof
+//@   assert@call(context.Context.Err#1): called("(*duplexHTTPCall).ensureRequestMade", 1)   // label: the-request-is-started-before-the-context-is-consulted-so-the-response-side-never-waits-for-a-request-that-was-not-made   // tags: C04
 
 //@ func (*duplexHTTPCall).Read(d, data) (n, err)
 //@   tags C15, C03, C04
